@@ -4,7 +4,7 @@ from evalutil import *
 
 ID = "C13"
 LEVEL = "proof"
-MODULES = ["H3Proofs.Props.C13"]
+MODULES = ["H3Proofs.Props.C13", "H3Proofs.Props.C13Bij"]
 THEOREMS = "auto"
 ASSUMPTIONS = ["hand-written model of cellToChildPos/childPosToCell/validateChildPos/_ipow tied to the code by "
                "the correspondence check"]
@@ -80,6 +80,8 @@ def streams(rng, tier):
     for p, cres, pos in tr:
         ops.append(f"pos2cell {pos} {gen.hx(p)} {cres}")
         ops.append(f"cpos {gen.hx(unrank(pos, p, cres))} {(p >> 52) & 15}")
+        ops.append(f"pos2cellS {pos} {gen.hx(p)} {cres}")   # specification-level model (the theorems' subject)
+        ops.append(f"cposS {gen.hx(unrank(pos, p, cres))} {(p >> 52) & 15}")
     ops2 = []
     for p, cres, pos in tr[:1500]:
         size = gen.children_size(p, cres)
@@ -91,6 +93,8 @@ def streams(rng, tier):
         h = gen.malformed(rng)
         ops2.append(f"cpos {gen.hx(h)} {rng.randrange(-1, 17)}")
         ops2.append(f"pos2cell {rng.randrange(0, 50)} {gen.hx(h)} {rng.randrange(0, 16)}")
+        ops2.append(f"cposS {gen.hx(h)} {rng.randrange(-1, 17)}")
+        ops2.append(f"pos2cellS {rng.randrange(0, 50)} {gen.hx(h)} {rng.randrange(0, 16)}")
     return [("pos-roundtrip", ops), ("errors-malformed", ops2)]
 
 
